@@ -76,7 +76,7 @@ def extra_setup(chk):
                     "S->I: adversary scripts of MCSetupEst played against LdapConnAsync::with_settings (termination only)")
     others = {k: v for k, v in rep.get("mismatch_by_key", {}).items() if k not in hangs}
     if others:
-        chk.notes.append("establishment: differences owned by C17/C18 (not this property): %s" % json_keys(others))
+        chk.notes.append("establishment: differences owned by C17/C18/C13 (not this property): %s" % json_keys(others))
     cnt = rep.get("counters", {})
     chk.evaluations += rep["evaluations"]
     chk.extra["establishment_termination"] = dict(scripts=cnt.get("vectors", 0), hangs=sum(hangs.values()),
